@@ -23,6 +23,7 @@ import (
 	"github.com/regclient/regclient/scheme"
 	"github.com/regclient/regclient/scheme/reg"
 	"github.com/regclient/regclient/types/descriptor"
+	"github.com/regclient/regclient/types/errs"
 	"github.com/regclient/regclient/types/manifest"
 	"github.com/regclient/regclient/types/ref"
 	"github.com/regclient/regclient/zzverif/simreg"
@@ -32,9 +33,10 @@ import (
 // ---- scenario (built by tools/props/c12.py from the probe results) ----
 
 type l2Mirror struct {
-	Name string `json:"name"`
-	Prio int    `json:"prio"`
-	Mode string `json:"mode"` // has | lacks | fails
+	Name   string `json:"name"`
+	Prio   int    `json:"prio"`
+	Mode   string `json:"mode"`   // has | lacks | fails
+	Prefix string `json:"prefix"` // config.Host.PathPrefix: the mirror serves the repositories below this name
 }
 
 type l2Fault struct {
@@ -58,6 +60,18 @@ type l2Scn struct {
 	Persist *l2Persist `json:"persist,omitempty"`
 	DIus    int        `json:"di_us"`
 	Conc    int        `json:"conc"` // ReqConcurrent of every host (0: the default, 3)
+	// further input dimensions (all false / empty = the setting of the first round)
+	Cache  bool `json:"cache"`  // reg.WithCache(5 min, 100)
+	Port   bool `json:"port"`   // the registry is named up.test:5000 (mirror names are given by the scenario)
+	TLS    bool `json:"tls"`    // hosts configured with TLS enabled: https URLs
+	NoHead bool `json:"nohead"` // APIOpts disableHead=true on every host
+}
+
+func (s *l2Scn) up() string {
+	if s.Port {
+		return l2Up + ":5000"
+	}
+	return l2Up
 }
 
 const (
@@ -140,7 +154,11 @@ var theFixture = func() *fixture {
 
 func fallbackTag(dig string) string { return strings.Replace(dig, ":", "-", 1) }
 
-func (f *fixture) seed(h *simreg.Host, withFallback bool) {
+func (f *fixture) seed(h *simreg.Host, withFallback bool, prefix string) {
+	l2Repo, l2Other := l2Repo, l2Other
+	if prefix != "" {
+		l2Repo, l2Other = prefix+"/"+l2Repo, prefix+"/"+l2Other
+	}
 	for _, b := range [][]byte{f.conf, f.layer1, f.layer2, f.empty} {
 		h.PutBlob(l2Repo, b)
 	}
@@ -184,7 +202,7 @@ var l2Ops = map[string]l2Op{
 		return "pong", err
 	}},
 	"repo-list": {run: func(ctx context.Context, rg *reg.Reg, f *fixture, r ref.Ref) (string, error) {
-		rl, err := rg.RepoList(ctx, l2Up)
+		rl, err := rg.RepoList(ctx, r.Registry)
 		if err != nil {
 			return "", err
 		}
@@ -261,7 +279,7 @@ var l2Ops = map[string]l2Op{
 		return "done", rg.BlobDelete(ctx, r, desc(mtLayer, f.layer2))
 	}},
 	"blob-mount": {run: func(ctx context.Context, rg *reg.Reg, f *fixture, r ref.Ref) (string, error) {
-		src, err := ref.New(l2Up + "/" + l2Other)
+		src, err := ref.New(r.Registry + "/" + l2Other)
 		if err != nil {
 			return "", fmt.Errorf("driver: %w", err)
 		}
@@ -278,6 +296,63 @@ var l2Ops = map[string]l2Op{
 	"blob-put-stream": {chunk: true, run: func(ctx context.Context, rg *reg.Reg, f *fixture, r ref.Ref) (string, error) {
 		d, err := rg.BlobPut(ctx, r, descriptor.Descriptor{}, bytes.NewReader(f.newBlob))
 		return d.Digest.String(), err
+	}},
+	// ---- second round: feature flags of the registry, digest algorithm, reference spelling, Seek ----
+	"manifest-head-nodigest": {feat: func(f *simreg.Features) { f.HeadDigest = false },
+		run: func(ctx context.Context, rg *reg.Reg, f *fixture, r ref.Ref) (string, error) {
+			m, err := rg.ManifestHead(ctx, r.SetTag("v1"))
+			if err != nil {
+				return "", err
+			}
+			return m.GetDescriptor().MediaType, nil
+		}},
+	"manifest-head-digest": {run: func(ctx context.Context, rg *reg.Reg, f *fixture, r ref.Ref) (string, error) {
+		m, err := rg.ManifestHead(ctx, r.SetDigest(sha(f.man2)))
+		if err != nil {
+			return "", err
+		}
+		return m.GetDescriptor().Digest.String(), nil
+	}},
+	"blob-put-chunked-minlen": {chunk: true, feat: func(f *simreg.Features) { f.ChunkMinLen = 1200 },
+		run: func(ctx context.Context, rg *reg.Reg, f *fixture, r ref.Ref) (string, error) {
+			d, err := rg.BlobPut(ctx, r, desc(mtLayer, f.newBlob), bytes.NewReader(f.newBlob))
+			return d.Digest.String(), err
+		}},
+	"blob-put-chunked-sha512": {chunk: true, run: func(ctx context.Context, rg *reg.Reg, f *fixture, r ref.Ref) (string, error) {
+		d := descriptor.Descriptor{MediaType: mtLayer, Digest: digest.SHA512.FromBytes(f.newBlob), Size: int64(len(f.newBlob))}
+		d, err := rg.BlobPut(ctx, r, d, bytes.NewReader(f.newBlob))
+		return d.Digest.String(), err
+	}},
+	"blob-mount-refused": {feat: func(f *simreg.Features) { f.Mount = false },
+		run: func(ctx context.Context, rg *reg.Reg, f *fixture, r ref.Ref) (string, error) {
+			src, err := ref.New(r.Registry + "/" + l2Other)
+			if err != nil {
+				return "", fmt.Errorf("driver: %w", err)
+			}
+			err = rg.BlobMount(ctx, src, r, desc(mtLayer, f.other))
+			if errors.Is(err, errs.ErrMountReturnedLocation) {
+				return "refused", nil // the registry opened an upload instead, BlobMount cancelled it
+			}
+			return "done", err
+		}},
+	"blob-get-seek": {run: func(ctx context.Context, rg *reg.Reg, f *fixture, r ref.Ref) (string, error) {
+		br, err := rg.BlobGet(ctx, r, desc(mtLayer, f.layer1))
+		if err != nil {
+			return "", err
+		}
+		defer br.Close()
+		if _, err = io.ReadFull(br, make([]byte, 500)); err != nil {
+			return "", err
+		}
+		// the caller's Seek is not visible at the hosts: tell the monitor that a new call begins here
+		if mark, ok := ctx.Value(markKey{}).(func()); ok {
+			mark()
+		}
+		if _, err = br.Seek(0, io.SeekStart); err != nil {
+			return "", err
+		}
+		b, err := io.ReadAll(br)
+		return sha(b), err
 	}},
 	// a source that is only an io.Reader (stdin, a pipe): the single PUT cannot be repeated.  As many
 	// uploads as the host has throttle slots, then an ordinary request to the same host.
@@ -331,6 +406,7 @@ func referrerList(ctx context.Context, rg *reg.Reg, f *fixture, r ref.Ref) (stri
 // ---- one execution ----
 
 type concKey struct{}
+type markKey struct{}
 
 type hostState struct {
 	Tags      map[string]string
@@ -422,6 +498,7 @@ type l2Exec struct {
 	names   []string
 	gid     int64
 	quiet   []vtrace.Event
+	marks   []int // number of requests seen when the operation announced a new call of its own (Seek)
 }
 
 var errRunaway = errors.New("model host: run-away cut-off, identical request repeated too often")
@@ -527,15 +604,25 @@ func (x *l2Exec) l2Exec(ctx context.Context, op l2Op, done chan<- struct{}, res 
 	x.mu.Unlock()
 	s := x.s
 	hosts := []*config.Host{}
-	up := config.HostNewName(l2Up)
-	up.Hostname, up.TLS, up.Priority = l2Up, config.TLSDisabled, uint(s.UpPrio)
+	tls := config.TLSDisabled
+	if s.TLS {
+		tls = config.TLSEnabled
+	}
+	up := config.HostNewName(s.up())
+	up.Hostname, up.TLS, up.Priority = s.up(), tls, uint(s.UpPrio)
+	if s.NoHead {
+		up.APIOpts = map[string]string{"disableHead": "true"}
+	}
 	up.User, up.Pass = "user-up", "pass-up"
 	if s.Conc > 0 {
 		up.ReqConcurrent = int64(s.Conc)
 	}
 	for _, m := range s.Mirrors {
 		mh := config.HostNewName(m.Name)
-		mh.Hostname, mh.TLS, mh.Priority = m.Name, config.TLSDisabled, uint(m.Prio)
+		mh.Hostname, mh.TLS, mh.Priority, mh.PathPrefix = m.Name, tls, uint(m.Prio), m.Prefix
+		if s.NoHead {
+			mh.APIOpts = map[string]string{"disableHead": "true"}
+		}
 		mh.User, mh.Pass = "user-"+m.Name, "pass-"+m.Name
 		if s.Conc > 0 {
 			mh.ReqConcurrent = int64(s.Conc)
@@ -551,8 +638,11 @@ func (x *l2Exec) l2Exec(ctx context.Context, op l2Op, done chan<- struct{}, res 
 	if op.chunk {
 		opts = append(opts, reg.WithBlobSize(1000, 1500))
 	}
+	if s.Cache {
+		opts = append(opts, reg.WithCache(5*time.Minute, 100))
+	}
 	rg := reg.New(opts...)
-	r, err := ref.New(l2Up + "/" + l2Repo)
+	r, err := ref.New(s.up() + "/" + l2Repo)
 	if err != nil {
 		*rerr = fmt.Errorf("driver: %w", err)
 		return
@@ -561,13 +651,19 @@ func (x *l2Exec) l2Exec(ctx context.Context, op l2Op, done chan<- struct{}, res 
 	if s.Conc > 0 {
 		conc = s.Conc
 	}
-	*res, *rerr = op.run(context.WithValue(ctx, concKey{}, conc), rg, theFixture, r)
+	octx := context.WithValue(context.WithValue(ctx, concKey{}, conc), markKey{}, func() {
+		n := len(x.net.Log())
+		x.mu.Lock()
+		x.marks = append(x.marks, n)
+		x.mu.Unlock()
+	})
+	*res, *rerr = op.run(octx, rg, theFixture, r)
 	if ctx.Err() != nil {
 		return
 	}
 	// quiescence: the operation returned and closed its responses, every throttle slot must be free
 	for i, q := range rg.Throttle(r, false) {
-		name := l2Up
+		name := s.up()
 		if i > 0 && i-1 < len(s.Mirrors) {
 			name = s.Mirrors[i-1].Name
 		}
@@ -611,16 +707,16 @@ func runL2Once(s *l2Scn, faulty bool) *l2Outcome {
 	if op.feat != nil {
 		op.feat(&feat)
 	}
-	type hm struct{ name, mode string }
+	type hm struct{ name, mode, prefix string }
 	all := []hm{}
 	for _, m := range s.Mirrors {
-		all = append(all, hm{m.Name, m.Mode})
+		all = append(all, hm{m.Name, m.Mode, m.Prefix})
 	}
-	all = append(all, hm{l2Up, "has"})
+	all = append(all, hm{s.up(), "has", ""})
 	for _, a := range all {
 		h := x.net.AddHost(a.name, feat)
 		if a.mode != "lacks" {
-			theFixture.seed(h, op.fb)
+			theFixture.seed(h, op.fb, a.prefix)
 		}
 		h.Intercept = x.intercept(h, a.mode)
 		h.After = func(rq *simreg.Request) {
@@ -697,10 +793,14 @@ func runL2(s *l2Scn, probe bool) *vtrace.Trace {
 		s.DIus = 2000
 	}
 	ff := runL2Once(s, false)
-	if ff.hang != "" || ff.stall != "" {
-		return &vtrace.Trace{ID: s.ID, Meta: map[string]any{"mode": "l2", "stall": "fault-free run did not finish: " + ff.hang + ff.stall}}
+	if ff.stall != "" {
+		return &vtrace.Trace{ID: s.ID, Meta: map[string]any{"mode": "l2", "stall": "fault-free run did not finish: " + ff.stall}}
 	}
 	meta := map[string]any{"mode": "l2", "op": s.Op, "ff_ret": ff.ret, "ff_n": len(ff.log)}
+	if ff.hang != "" {
+		// the operation hangs even without a fault (proven from the goroutine dump): that run is the trace
+		probe = true
+	}
 	if probe {
 		var cl []string
 		for _, rq := range ff.log {
@@ -717,14 +817,25 @@ func runL2(s *l2Scn, probe bool) *vtrace.Trace {
 	for _, m := range s.Mirrors {
 		hostNames, prios = append(hostNames, m.Name), append(prios, m.Prio)
 	}
-	hostNames, prios = append(hostNames, l2Up), append(prios, s.UpPrio)
-	hdr := map[string]any{"R": s.R, "D": s.DIus, "up": l2Up, "hosts": hostNames, "prio": prios,
+	hostNames, prios = append(hostNames, s.up()), append(prios, s.UpPrio)
+	prefixes := map[string]string{}
+	for _, m := range s.Mirrors {
+		if m.Prefix != "" {
+			prefixes[m.Name] = m.Prefix
+		}
+	}
+	hdr := map[string]any{"R": s.R, "D": s.DIus, "up": s.up(), "hosts": hostNames, "prio": prios,
 		"slack": 500000, "waive": []string{}, "layer": 2}
 	evs := []vtrace.Event{{"ev": "op", "name": s.Op, "tc": run.tc}}
 	log := run.log
 	sort.SliceStable(log, func(i, j int) bool { return log[i].Seq < log[j].Seq })
-	for _, rq := range log {
+	for i, rq := range log {
 		x.mu.Lock()
+		for _, mk := range x.marks {
+			if mk == i && i > 0 {
+				evs = append(evs, vtrace.Event{"ev": "op", "name": "seek", "tc": x.tr[log[i-1].Seq]})
+			}
+		}
 		ta, okA := x.ta[rq.Seq]
 		tr, okR := x.tr[rq.Seq]
 		capped, natural := x.capped[rq.Seq], x.natural[rq.Seq]
@@ -739,7 +850,12 @@ func runL2(s *l2Scn, probe bool) *vtrace.Trace {
 		if capped {
 			k = "cap"
 		}
-		sig := rq.Method + " " + rq.Path
+		// the same logical request has the same signature on every host: a mirror's path prefix is left out
+		path := rq.Path
+		if pf := prefixes[rq.Host]; pf != "" {
+			path = strings.Replace(path, "/v2/"+pf+"/", "/v2/", 1)
+		}
+		sig := rq.Method + " " + path
 		if q := rq.Query.Encode(); q != "" {
 			sig += "?" + q
 		}
